@@ -148,6 +148,11 @@ func Reductions(g *Grammar, must []string, max int) []*Grammar {
 		}
 		cands = append(cands, cand{c, n})
 	}
+	if g.Decoy != "" {
+		c := g.Clone()
+		c.Decoy = ""
+		add(c)
+	}
 	// restrict the entries to the needed ones (drops unrelated rules at once), or drop one
 	{
 		c := g.Clone()
